@@ -159,8 +159,9 @@ def show(b, n=80):
 
 class Job:
     """A batch of cases with (optionally) a correspondence function and (optionally) an oracle mode."""
-    def __init__(self, name, cases, corr=None, judge_mode=None, nontrivial=None, mutate=None):
+    def __init__(self, name, cases, corr=None, judge_mode=None, nontrivial=None, mutate=None, shrinkable=True):
         self.name, self.cases, self.corr, self.judge_mode = name, cases, corr, judge_mode
+        self.shrinkable = shrinkable    # False when the cases come from a restricted domain that byte deletion would leave
         self.nontrivial = nontrivial or (lambda c: len(c[0]) > 0)
         self.mutate = mutate or (lambda rng, c: (gen.mutate(rng, c[0]), c[1]))
 
@@ -274,7 +275,7 @@ class Check:
         nviol = 0
         if violations:
             job, (c, p), sig = violations[0]
-            small = shrink(prop, c, p, sig, job.judge_mode)
+            small = shrink(prop, c, p, sig, job.judge_mode) if job.shrinkable else c
             path = write_replay(prop, tier, seed, {"input_hex": small.hex(), "param": p, "signature": sig, "original_hex": c.hex(),
                                                    "judge_mode": job.judge_mode, "job": job.name, "broken": broken,
                                                    "input_repr": show(small, 200)})
